@@ -203,6 +203,7 @@ func (p *Parser) ParseReader(r io.Reader, args ...any) (data any, err error) {
 
 			return
 		}
+		p.noff -= len(buf) - skip // offsets restart at 0 in the next buffer
 		skip = 0
 		if eof {
 			break
